@@ -28,6 +28,24 @@ def poly_jax(p, z):
     return tot
 
 
+DK_TERMS = {"ode": ["dyn_loss", "observations", "initial_condition"], "statio": ["dyn_loss", "observations", "boundary_loss", "norm_loss"],
+            "nonstatio": ["dyn_loss", "observations", "boundary_loss", "norm_loss", "initial_condition"]}
+
+
+def rand_dk(rng, kind):
+    """derivative keys given as boolean trees, some of them all-False: they say which parameters a term is differentiated
+    with respect to and must never change the VALUE of any term"""
+    return {t: [rng.random() < 0.5, rng.random() < 0.5] for t in DK_TERMS[kind]}
+
+
+def make_dk(kind, P, spec):
+    jax, jnp, np, eqx, jinns = jx()
+    from jinns.parameters import Params
+    cls = {"ode": jinns.parameters.DerivativeKeysODE, "statio": jinns.parameters.DerivativeKeysPDEStatio, "nonstatio": jinns.parameters.DerivativeKeysPDENonStatio}[kind]
+    mask = lambda nn, eq: Params(nn_params=bool(nn), eq_params={k: bool(eq) for k in P.eq_params})
+    return cls(**{t: mask(*spec[t]) for t in DK_TERMS[kind]}, params=P)
+
+
 def make_loss(cfg):
     """cfg keys: kind, dim, upolys (list of dicts), res (list of (q poly, a int)), w_dyn, parts..."""
     jax, jnp, np, eqx, jinns = jx()
@@ -56,6 +74,8 @@ def make_loss(cfg):
     P = Params(nn_params=u.init_params(), eq_params={"a": jnp.array(1.0)})
     W = lambda w: (jnp.array(w) if isinstance(w, (list, tuple)) else float(w))
     kw = {}
+    if cfg.get("dk"):
+        kw["derivative_keys"] = make_dk(kind, P, cfg["dk"])
     if kind == "ode":
         lw = jinns.loss.LossWeightsODE(dyn_loss=W(cfg.get("w_dyn", 1.0)), initial_condition=W(cfg.get("w_ic", 1.0)), observations=W(cfg.get("w_obs", 1.0)))
         if cfg.get("ic"):
